@@ -172,7 +172,37 @@ fn round(rng: &mut Rng, sums: &[usize], out: &mut Out) {
             for scheme in [Scheme::At8, Scheme::At772] {
                 let mut filler = rng.bytes(PACKET);
                 sha::set_selector(&mut filler, scheme, sum);
-                let p1 = sha::make_p1(sender, scheme, &filler);
+                let mut p1 = sha::make_p1(sender, scheme, &filler);
+                // the time and version fields are the sender's business: any values, including all
+                // zeroes, with the digest recomputed over them
+                if rng.chance(1, 3) {
+                    let (t, v): ([u8; 4], [u8; 4]) = match rng.below(5) {
+                        0 => ([0; 4], [0; 4]),
+                        1 => ([0; 4], [0, 0, 0, 1]),
+                        2 => ([0xFF; 4], [0xFF; 4]),
+                        3 => ([0; 4], [128, 0, 7, 2]),
+                        _ => (rng.u32().to_be_bytes(), rng.u32().to_be_bytes()),
+                    };
+                    p1[0..4].copy_from_slice(&t);
+                    p1[4..8].copy_from_slice(&v);
+                    let off = sha::digest_offset(&p1, scheme);
+                    let d = sha::p1_digest(&p1, off, &sha::role_p1_key(sender));
+                    p1[off..off + 32].copy_from_slice(&d);
+                    out.count("received_p1_with_unusual_time_or_version_fields", 1);
+                }
+                // a near-miss: one bit wrong inside the digest, or outside it (then the digest no
+                // longer matches): no valid digest => the answer must be the exact echo
+                if rng.chance(1, 4) {
+                    let off = sha::digest_offset(&p1, scheme);
+                    let mut bad = p1.clone();
+                    let at = if rng.coin() { off + rng.usize(0, 31) } else { rng.usize(8, PACKET - 1) };
+                    // the selector bytes move the digest: keep them (another offset could hit a valid digest only with probability 2^-256 anyway)
+                    bad[at] ^= 1 << rng.below(8);
+                    if sha::find_digest(&bad, &sha::role_p1_key(sender)).is_empty() {
+                        out.count("received_p1_with_near_miss_digest", 1);
+                        answer(other(sender), &bad, None, &format!("near-miss: valid {:?} packet with bit flipped at byte {} (digest at {})", scheme, at, off), rng.next(), rng.coin(), out);
+                    }
+                }
                 let off = sha::digest_offset(&p1, scheme);
                 let mut d = [0u8; 32];
                 d.copy_from_slice(&p1[off..off + 32]);
@@ -248,7 +278,7 @@ impl Check for C11 {
         }
     }
     fn rule(&self) -> String {
-        "enumeration of every selector-byte sum 0..=1020 (all 728 digest offsets, both sums where a residue has two) x {own packet 1 as client, as server (via the deterministic fill hook); received packet 1 built by the reference, keyed as client -> library server and keyed as server -> library client, digest placed by scheme at-8 and by scheme at-772}, remaining bytes seeded-random, repeated for up to 32 (quick) / 3200 (thorough) fillings (the first two always); plus digest-less packet 1s (zero version, non-zero version, random, digest keyed for the wrong role) and packets generated with the library's own RNG. Every digest, signature and echo is recomputed with the independent SHA-256/HMAC. distinct = (own/received, role, scheme, offset) combinations observed.".to_string()
+        "enumeration of every selector-byte sum 0..=1020 (all 728 digest offsets, both sums where a residue has two) x {own packet 1 as client, as server (via the deterministic fill hook); received packet 1 built by the reference, keyed as client -> library server and keyed as server -> library client, digest placed by scheme at-8 and by scheme at-772; a third of them with unusual time/version fields (all zero, all ones, random) and the digest recomputed; a quarter additionally as a near-miss with one bit flipped inside or outside the digest, which must be answered by an echo}, remaining bytes seeded-random, repeated for up to 32 (quick) / 3200 (thorough) fillings (the first two always); plus digest-less packet 1s (zero version, non-zero version, random, digest keyed for the wrong role) and packets generated with the library's own RNG. Every digest, signature and echo is recomputed with the independent SHA-256/HMAC. distinct = (own/received, role, scheme, offset) combinations observed.".to_string()
     }
     fn assumptions(&self) -> Vec<String> {
         vec![
@@ -266,6 +296,8 @@ impl Check for C11 {
             "received_p1_from_Client_At772".into(),
             "received_p1_from_Server_At8".into(),
             "received_p1_from_Server_At772".into(),
+            "received_p1_with_unusual_time_or_version_fields".into(),
+            "received_p1_with_near_miss_digest".into(),
         ]
     }
     fn soft_counters(&self, _tier: Tier) -> Vec<String> {
